@@ -143,6 +143,7 @@ def strategy_(draw, tier):
     spec = draw(extent_spec(tier))
     size = spec["capacity"] * 512
     spec["requests"] = draw(strat.requests(size, unit_bytes(spec), count=6, points=request_points(spec), whole_limit=4 << 20))
+    spec["via_minimal"] = draw(strat.minimal_handle())
     spec["sector_requests"] = [[o // 512, max(1, min(n, 1 << 20) // 512)] for o, n in spec["requests"][:2]]
     return spec
 
@@ -206,6 +207,9 @@ def check(spec) -> Outcome:
     if v.size != size:
         out.fail(f"mismatch|{tag}-size", f"size {v.size} != {size}")
     check_reads(out, v, lay, spec["requests"], tag)
+    from hv.core import also_minimal
+
+    also_minimal(out, spec, fh, VMDK, lay, spec["requests"], tag)
     for s, c in spec.get("sector_requests", []):
         c = min(c, spec["capacity"] - s)
         if c <= 0:
